@@ -139,6 +139,10 @@ func init() {
 			ruleNoPkgState(c, w, tb, ef, "R12.2", w.ModuleFuncs(OtpPath))
 			ruleNoAliasingResult(c, w, tb, "R12.3", api)
 			ruleNoCapReads(c, w, tb, "R12.4", w.ModuleFuncs(OtpPath))
+			// … and no result is a view of the library's own state (a list built once and handed to every caller:
+			// one caller's edit changes what the registry reports to all others)
+			ruleFreshResults(c, w, tb, "R12.5", api)
+			c.Floor("R12.5", 5)
 			// the service layer must not write the exported defaults or the registry either (a pointer copied from them)
 			ruleRESTStateless(c, w, tb, ef, "R12.REST", false)
 			runControl(c, "R12.1", []string{"ControlWritesParam|param:p:store", "ControlAppendsParam|param:p:append"}, func(sink *Check, cw *World) {
